@@ -702,8 +702,8 @@ func ruleTC(c *Ctx) {
 	homog("parser/ast.MapExpr", "Pairs", ".Val")
 	if b := blk("parser/ast.MapExpr"); b != nil {
 		okPrim := false
-		for _, a := range c.callsTo(b, "util.Assert") {
-			if len(a.Args) > 0 && strings.Contains(sx(a.Args[0]), "Sel:IsPrimitive") {
+		for _, a := range c.asserted(b) {
+			if strings.Contains(sx(a.cond), "Sel:IsPrimitive") && !strings.Contains(sx(a.cond), "Op:!") {
 				okPrim = true
 			}
 		}
@@ -757,7 +757,7 @@ func ruleTC(c *Ctx) {
 			return true
 		})
 		c.R.Check(okPairs, "types.Check", "TC-3 every parameter/argument pair compared", b.Pos(), "loop from 0 typeAssert(fun.Param[i], args[i])", "arguments are not compared pairwise with the parameters of the resolved function")
-		okNonCallable := len(c.callsTo(b, "util.Assert")) >= 2
+		okNonCallable := len(c.asserted(b)) >= 2
 		c.R.Check(okNonCallable, "types.Check", "TC-3 dynamic callee must be a function", b.Pos(), "util.Assert(f.Kind == KFun) and util.Assert(fun != nil)", "a non-function callee or a failed instantiation is not rejected")
 	}
 
@@ -799,14 +799,23 @@ func ruleTC(c *Ctx) {
 		}
 	}
 	if b := blk("parser/ast.MemberExpr"); b != nil {
-		var kindAssert, okAssert *ast.CallExpr
-		for _, a := range c.callsTo(b, "util.Assert") {
-			s := sx(a.Args[0])
-			if strings.Contains(s, "Sel:Kind") && strings.Contains(s, "KObj") && strings.Contains(s, "Op:==") {
-				kindAssert = a
+		var kindAssert, okAssert ast.Node
+		var getObj types.Object
+		inspectNoLit(b, func(y ast.Node) bool {
+			if as, ok := y.(*ast.AssignStmt); ok && len(as.Lhs) == 2 && len(as.Rhs) == 1 {
+				if ce, ok := unparen(as.Rhs[0]).(*ast.CallExpr); ok && c.calleeName(ce) == "types.ObjTy.GetField" {
+					getObj = c.objOf(as.Lhs[1])
+				}
 			}
-			if src(a.Args[0]) == "ok" {
-				okAssert = a
+			return true
+		})
+		for _, a := range c.asserted(b) {
+			s := sx(a.cond)
+			if strings.Contains(s, "Sel:Kind") && strings.Contains(s, "KObj") && strings.Contains(s, "Op:==") {
+				kindAssert = a.node
+			}
+			if getObj != nil && c.objOf(a.cond) == getObj {
+				okAssert = a.node
 			}
 		}
 		gf := c.callsTo(b, "types.ObjTy.GetField")
@@ -862,17 +871,26 @@ func ruleTC(c *Ctx) {
 
 	// TC-8 reserved
 	if b := blk("parser/ast.IdentExpr"); b != nil {
-		var resv *ast.CallExpr
-		for _, a := range c.callsTo(b, "util.Assert") {
-			if strings.Contains(sx(a.Args[0]), "Sel:Reserved") && strings.Contains(sx(a.Args[0]), "Op:!") {
-				resv = a
+		var resv ast.Node
+		for _, a := range c.asserted(b) {
+			if strings.Contains(sx(a.cond), "Sel:Reserved") && strings.Contains(sx(a.cond), "Op:!") {
+				resv = a.node
 			}
 		}
 		get := c.callsTo(b, "types.Env.Get")
 		c.R.Check(resv != nil && len(get) == 1 && g.dominates(resv, get[0]), "types.Check", "TC-8 reserved words rejected before lookup", b.Pos(), "Assert(!lexer.Reserved(id)) dominates env.Get", "reserved identifiers are looked up like ordinary names")
 		okUndef := false
-		for _, a := range c.callsTo(b, "util.Assert") {
-			if src(a.Args[0]) == "ok" {
+		var envOK types.Object
+		inspectNoLit(b, func(y ast.Node) bool {
+			if as, ok := y.(*ast.AssignStmt); ok && len(as.Lhs) == 2 && len(as.Rhs) == 1 {
+				if ce, ok := unparen(as.Rhs[0]).(*ast.CallExpr); ok && c.calleeName(ce) == "types.Env.Get" {
+					envOK = c.objOf(as.Lhs[1])
+				}
+			}
+			return true
+		})
+		for _, a := range c.asserted(b) {
+			if envOK != nil && c.objOf(a.cond) == envOK {
 				okUndef = true
 			}
 		}
@@ -882,21 +900,21 @@ func ruleTC(c *Ctx) {
 	// TC-9 typeAssert
 	if ta := c.FuncDecl("types", "typeAssert"); ta != nil {
 		eq := c.callsTo(ta.Body, "types.Equals")
-		as := c.callsTo(ta.Body, "util.Assert")
+		as := c.asserted(ta.Body)
 		okTA := len(eq) == 1 && len(as) == 1 && len(eq[0].Args) == 2 && c.objOf(eq[0].Args[0]) != c.objOf(eq[0].Args[1])
 		if okTA {
 			d := c.localDefs(ta.Body)
-			okTA = strings.Contains(c.sxInl(as[0].Args[0], d), "Fun:Equals") && !strings.Contains(c.sxInl(as[0].Args[0], d), "Op:||")
+			okTA = strings.Contains(c.sxInl(as[0].cond, d), "Fun:Equals") && !strings.Contains(c.sxInl(as[0].cond, d), "Op:||") && !strings.Contains(c.sxInl(as[0].cond, d), "Op:!")
 		}
 		c.R.Check(okTA, "types.typeAssert", "TC-9 asserts Equals(expect, actual)", ta.Pos(), "structural equality of the two parameters is asserted", "typeAssert does not assert structural equality of its two parameters")
 	} else {
 		c.R.Anchor("types.typeAssert")
 	}
 	if aa := c.FuncDecl("types", "arityAssert"); aa != nil {
-		as := c.callsTo(aa.Body, "util.Assert")
+		as := c.asserted(aa.Body)
 		okAA := len(as) == 1
 		if okAA {
-			be, ok := unparen(as[0].Args[0]).(*ast.BinaryExpr)
+			be, ok := unparen(as[0].cond).(*ast.BinaryExpr)
 			okAA = ok && be.Op == token.EQL
 		}
 		c.R.Check(okAA, "types.arityAssert", "TC-3 asserts expect == actual", aa.Pos(), "exact arity", "arity is not compared with ==")
